@@ -153,7 +153,7 @@ func checkThresholdBounds(c *Ctx, prop string, setP *ssa.Function) {
 				if fa, ok := st.Addr.(*ssa.FieldAddr); ok {
 					o, s := ownerOfFieldBase(fa.X.Type())
 					if o == bftPkg+".BFTParams" {
-						name := s.Field(fa.Field).Name()
+						name := fieldNameOf(s.Field(fa.Field))
 						t := ff.Term(st.Val)
 						got[name] = t.String()
 						if chk, ok := wantFields[name]; ok {
@@ -187,7 +187,7 @@ func storesToField1(fn *ssa.Function, owner, field string) []*ssa.Store {
 			if st, ok := in.(*ssa.Store); ok {
 				if fa, ok := st.Addr.(*ssa.FieldAddr); ok {
 					o, s := ownerOfFieldBase(fa.X.Type())
-					if o == owner && s.Field(fa.Field).Name() == field {
+					if o == owner && fieldNameOf(s.Field(fa.Field)) == field {
 						out = append(out, st)
 					}
 				}
